@@ -5,7 +5,11 @@ rows = []
 notes = json.load(open('/verif/seeded/NOTES.json'))
 for f in sorted(glob.glob('/verif/seeded/*/meta.json')):
     m = json.load(open(f))
-    det = ', '.join(m.get('detected_by') or []) or '**not detected**'
+    det = ', '.join(m.get('detected_by') or [])
+    if not det:
+        # no official run against /repo yet: what a run against a scratch copy (HEAD + patch) showed
+        sc = [p for p, v in (m.get('scratch_runs') or {}).get('quick', {}).items() if v.get('exit') == 1]
+        det = ', '.join('%s quick (scratch copy only)' % p for p in sc) or '**not detected**'
     rows.append('| %s | %s | %s | %s |' % (m['name'], m['breaks_property'], det, notes.get(m['name'], 'caught by the check as it was')))
 table = '| seeded change | breaks | caught by | note |\n|---|---|---|---|\n' + '\n'.join(rows) + '\n'
 p = '/verif/DESIGN.md'
